@@ -4,6 +4,7 @@ CONSTANTS
   CalVals <- CV_Thin
   Ls <- L_12
   Export = FALSE
+  Canonical = FALSE
   Variant = "le"
 INVARIANT ExactlyOne
 INVARIANT RightPool
